@@ -1,12 +1,16 @@
 (** C03 — spec compilation and argument parsing always terminate without crashing.
-    PARTIAL: proved for all inputs are the termination, within the fuel the model hands out, of the
-    lexer, the parser, the option-group loop and State.apply (on every well-formed graph and every
-    subset of environment-backed options), and the well-formedness of the Thompson graph. NOT yet
-    proved: that shortcut elimination (simplify with the D2 repair) stays within its fuel and keeps
-    the graph well formed — the check observes it on every generated spec (the model reports
-    "fuel", which the check treats as a violation) and the implementation runs under a watchdog. *)
+    Proved for all inputs (every byte string as spec, every declaration list, every command line,
+    every environment, every command tree): the lexer, the parser, shortcut elimination (with the D2
+    repair), the option-group loop and State.apply (with the D3 repair) all end within the fuel the
+    model hands out, compilation yields a well-formed automaton, and Run ends with one of the
+    documented outcomes — a positioned spec error (C08), a declaration panic, acceptance or a usage
+    error, help — never "out of fuel"; the two "impossible" branches of Cmd.parse are never taken.
+    What a theorem about the model cannot show is observed on the running code by the check: the
+    real stack and the wall clock (worker with a 64 MiB stack limit and a per-case deadline), and Go
+    run-time errors (any is reported as a violation). The model has no crash outcomes: its functions
+    are total by construction (pattern matching instead of index expressions). *)
 From MowCli Require Import Base Lexer Parser Nfa Matchers Apply
-     Values Flow Cmd LexerProofs ParserProofs NfaProofs ApplyProofs TermProofs.
+     Values Flow Cmd LexerProofs ParserProofs NfaProofs ApplyProofs TermProofs CompileProofs.
 
 Theorem C03_lexer_total : forall s, tokenize s <> LexFuel.
 Proof. exact tokenize_total. Qed.
@@ -46,7 +50,28 @@ Theorem C03_apply_total :
     wf_graph g -> start < nstates g -> fsm_apply D g start args <> AFuel.
 Proof. exact fsm_apply_total. Qed.
 
+(** compiling any spec string against any declarations never runs out of fuel, and what it yields is
+    a well-formed automaton *)
+Theorem C03_compile_total :
+  forall pf ge ds spec,
+    do_init pf ge ds spec <> IFuel /\
+    forall i, do_init pf ge ds spec = IOk i -> wfg (i_graph i) /\ i_start i < nstates (i_graph i).
+Proof. exact do_init_total. Qed.
+
+(** parsing any command line with a compiled command ends: accept, usage error or conversion error *)
+Theorem C03_parse_total :
+  forall pf ge ds spec i argv, do_init pf ge ds spec = IOk i -> fsm_parse pf i argv <> PFuelOut.
+Proof. exact fsm_parse_total. Qed.
+
+(** Run of any application on any command line in any environment ends with a documented outcome *)
+Theorem C03_run_total :
+  forall pf ge a argv, r_outcome (run pf ge a argv) <> RFuel.
+Proof. exact run_total. Qed.
+
 Print Assumptions C03_lexer_total.
+Print Assumptions C03_compile_total.
+Print Assumptions C03_parse_total.
+Print Assumptions C03_run_total.
 Print Assumptions C03_parser_total.
 Print Assumptions C03_thompson_wf.
 Print Assumptions C03_matcher_progress.
